@@ -113,14 +113,14 @@ def _functions(src, prefix=r"/\*gpufun\*/"):
     return out
 
 
-def _zoo_sources(cx):
+def _zoo_sources(cx, builder=None):
     m = cx.m
     lab = Lab(m)
     I, W = lab.I, lab.W
     out = {}
 
     def thunk():
-        zoo = build_zoo(lab)
+        zoo = (builder or build_zoo)(lab)
         out["zoo"] = zoo
         out["mem"] = dict(I.mem)
         Big = zoo["Big"]
@@ -131,7 +131,7 @@ def _zoo_sources(cx):
         out["methods"] = {id(p): [(src_, I.getattr(k_, "c_name")) for src_, k_ in I.call(mfp, [Big, p, dict(CONF)], {}) if src_ is not None] for p in out["paths"]}
         out["cdecl"] = I.call(I.getattr(Big, "_gen_c_decl"), [{}], {})
         out["others"] = {}
-        for nm in ("T", "A1", "AT", "AS", "M", "D2", "U"):
+        for nm in zoo.get("others", ("T", "A1", "AT", "AS", "M", "D2", "U")):
             c = zoo[nm]
             s = I.call(I.getattr(c, "_gen_c_api"), [dict(CONF)], {})
             out["others"][nm] = I.getattr(s, "source") if isinstance(s, Obj) else s
@@ -171,7 +171,42 @@ def _path_fun_names(lab, zoo, path):
     return names
 
 
-ZOO_TYPENAMES = {"Big", "T", "U", "ArrNFloat64", "ArrNT", "ArrNString", "Arr2x3Int16", "ArrNx3Float32"}
+ZOO_TYPENAMES = {"Big", "T", "U", "ArrNFloat64", "ArrNT", "ArrNString", "Arr2x3Int16", "ArrNx3Float32",
+                 "Rare", "Leaf", "Arr1String", "Arr1x1ArrNFloat64", "Arr4Int32", "Arr3Arr4Int32", "Arr2Arr3Arr4Int32", "ArrNLeaf", "Branch", "ArrNBranch", "Arr2Int16"}
+
+
+def build_zoo_rare(lab):
+    """a second, small zoo of RARE shapes (round j): arrays whose extents are all 1 with dynamically sized items (the
+    item offset table must still be followed), paths that cross three arrays -- directly and through structs, with
+    unequal extents (each index argument belongs to its own array)."""
+    I, W = lab.I, lab.W
+    g = lambda mod, n: I.global_lookup(mod, n)
+    F, I32, I16, I64 = g("scalar", "Float64"), g("scalar", "Int32"), g("scalar", "Int16"), g("scalar", "Int64")
+    String = g("string", "String")
+    ONE = lab.array("Arr1String", (1,), (0,), String)
+    A1 = lab.array("ArrNFloat64", (None,), (0,), F)
+    ONE2 = lab.array("Arr1x1ArrNFloat64", (1, 1), (0, 1), A1)
+    D4 = lab.array("Arr4Int32", (4,), (0,), I32)
+    D3 = lab.array("Arr3Arr4Int32", (3,), (0,), D4)
+    D2 = lab.array("Arr2Arr3Arr4Int32", (2,), (0,), D3)
+    S2 = lab.array("Arr2Int16", (2,), (0,), I16)
+    Leaf = lab.struct("Leaf", [("q", I64), ("data", S2)])
+    AL = lab.array("ArrNLeaf", (None,), (0,), Leaf)
+    Branch = lab.struct("Branch", [("k", I64), ("leaves", AL)])
+    AB = lab.array("ArrNBranch", (None,), (0,), Branch)
+    Rare = lab.struct("Rare", [("n", I64), ("one", ONE), ("one2", ONE2), ("deep", D2), ("branches", AB)])
+    leaf = lambda t: {"q": Opaque(f"q{t}"), "data": lab.value(f"ld{t}", [2])}
+    args = {
+        "n": Opaque("vn"),
+        "one": lab.value("o", [1], elem=lambda k: "only one"),
+        "one2": lab.value("oo", [1, 1], elem=lambda k: lab.value("ooi", [3])),
+        "deep": lab.value("dp", [2], elem=lambda k: lab.value(f"dp{k}", [3], elem=lambda j: lab.value(f"dp{k}{j}", [4]))),
+        "branches": lab.value("br", [2], elem=lambda k: {"k": Opaque(f"bk{k}"), "leaves": lab.value(f"lv{k}", [3], elem=lambda j: leaf(f"{k}{j}"))}),
+        "_buffer": W.buffer,
+    }
+    rare = I.call(Rare, [], args)
+    return {"Big": Rare, "big": rare, "others": (), "String": String,
+            "dims": {id(ONE): [1], id(ONE2): [1, 1], id(A1): [3], id(D4): [4], id(D3): [3], id(D2): [2], id(S2): [2], id(AL): [3], id(AB): [2]}}
 
 
 def accessor_mismatches(Z, texts):
@@ -318,6 +353,24 @@ def t3z(cx):
     cx.check(ok, None, construct="Big_member_u: " + " ".join(strip_comments(fmem[1]).split())[:140], detail="member address = slot + stored relative offset", bad_detail=f"C member address obj+{ev.env['offset']!r}, Python member at obj+{pol(mpos) - base!r}", anchor="capi::gen_method_member", sub="member")
     en = re.search(r"enum U_e\{([^}]*)\}", Z["others"]["U"])
     cx.check(en is not None and en.group(1).split(",") == ["U_T_t", "U_ArrNFloat64_t"], None, construct=f"enum U_e{{{en.group(1) if en else '?'}}}", detail="C member ids enumerate _reftypes in order (same ids as _typeid_from_type)", bad_detail="C enum does not list the members in _reftypes order", anchor="capi::gen_enum", sub="enum")
+
+
+@rule("T3r", ["C02", "C07"], "rare shapes: arrays of extents (1,) / (1,1) with dynamically sized items, paths crossing three arrays (directly, and through structs) -- every generated accessor computes the address the Python locators compute")
+def t3r(cx):
+    """The zoo of T3z has at most two arrays on a path and no array whose extents are all 1.  This second zoo has:
+    `String[1]`, `Float64[:][1,1]` (one slot, dynamically sized item: the item offset table is still followed),
+    `Int32[4][3][2]` and `branches[i].leaves[j].data[k]` with extents 2 / 3 / 2 (three arrays on one path: index
+    argument k belongs to array k).  Evaluated like T3z for every in-range index tuple."""
+    Z = _zoo_sources(cx, build_zoo_rare)
+    funs = _functions(Z["src"])
+    cx.need(len(funs) >= 30, f"only {len(funs)} generated functions recognised in the rare-shape zoo")
+    res = accessor_mismatches(Z, {nm: v[1] for nm, v in funs.items()})
+    cx.need(len(res) >= 25, f"only {len(res)} accessors of the rare-shape zoo evaluated")
+    deep = [r for r in res if r[1].count("int64_t i") >= 3 or r[1].count(" i2") >= 1]
+    cx.need(len(deep) >= 4, f"only {len(deep)} accessors with three index arguments")
+    for cname, params, nf, nidx, bad in res:
+        cx.check(bad is None, None, construct=f"{cname}({params})", nf=nf, detail=f"C address = Python locator chain for {nidx} index tuple(s)",
+                 bad_detail=(f"indices {bad[0]}: C addresses obj+{bad[1]!r}, Python obj+{bad[2]!r}" if bad else ""), anchor="capi::gen_method_offset")
 
 
 @rule("R07", ["C07"], "generated setter and getter of a leaf share one address computation and one typed access of the element's width")
